@@ -1,7 +1,7 @@
 package vault
 
 // C20 (e') — a rekey / key rotation proceeds only once the configured threshold of DISTINCT shares was supplied: the
-// real Core.BarrierRekeyUpdate (accounting part) and the real SealManager.progressRotation for an ARBITRARY sequence
+// real Core.BarrierRekeyUpdate and Core.RecoveryRekeyUpdate (accounting part) and the real SealManager.progressRotation for an ARBITRARY sequence
 // of up to three submitted shares (symbolic bytes, duplicates allowed), an ARBITRARY threshold and right / wrong
 // nonces: a byte-identical share is refused and not counted; a share with a wrong nonce is refused and not counted; no
 // key is recovered (shamir.Combine is not reached, nothing is handed to verification) before `threshold` distinct
@@ -62,13 +62,23 @@ func vxRKShares(n int) ([][]byte, []bool) {
 	return parts, isNew
 }
 
-func VxBarrierRekeyAccounting() {
+func VxBarrierRekeyAccounting() { vxRekeyAccounting(false) }
+
+// the recovery-key flavour keeps its own progress (recoveryRotationConfig) and goes through RecoveryRekeyUpdate
+func VxRecoveryRekeyAccounting() { vxRekeyAccounting(true) }
+
+func vxRekeyAccounting(recovery bool) {
 	ctx := context.Background()
 	vxUCombines, vxUCombinedOf, vxRKVerified = 0, 0, nil
 	threshold := vxInt("secret threshold")
 	vxAssume(threshold >= 1 && threshold <= 4)
 	c := &Core{logger: vxULogger{}, seal: vxRKSeal{threshold: threshold}, barrier: vxRKBarrier{}, stateLock: &locking.SyncRWMutex{}}
-	c.rootRotationConfig = &SealConfig{SecretShares: 3, SecretThreshold: 2, Nonce: "nonce"}
+	cfg := &SealConfig{SecretShares: 3, SecretThreshold: 2, Nonce: "nonce"}
+	if recovery {
+		c.recoveryRotationConfig = cfg
+	} else {
+		c.rootRotationConfig = cfg
+	}
 	n := 1 + vxChoose("shares submitted", 3)
 	parts, isNew := vxRKShares(n)
 	accepted := 0
@@ -86,32 +96,38 @@ func VxBarrierRekeyAccounting() {
 			}
 		}
 		_ = isNew
-		before := len(c.rootRotationConfig.RotationProgress)
+		before := len(cfg.RotationProgress)
 		// was an identical share ACCEPTED before (a refused one does not count)?
 		seen := false
-		for _, q := range c.rootRotationConfig.RotationProgress {
+		for _, q := range cfg.RotationProgress {
 			if vxUEq(parts[i], q) {
 				seen = true
 			}
 		}
-		res, err := c.BarrierRekeyUpdate(ctx, parts[i], nonce)
+		var res *RekeyResult
+		var err error
+		if recovery {
+			res, err = c.RecoveryRekeyUpdate(ctx, parts[i], nonce)
+		} else {
+			res, err = c.BarrierRekeyUpdate(ctx, parts[i], nonce)
+		}
 		vxAssert("the state and rotation locks are released", vxHeld(c.stateLock) == 0 && vxHeld(&c.rotationLock) == 0)
 		vxAssert("no rekey result is produced by the accounting alone", res == nil)
 		if wrongNonce {
 			vxReach("rekey: wrong nonce")
-			vxAssert("a share with a wrong nonce is refused and not counted", err != nil && len(c.rootRotationConfig.RotationProgress) == before && len(vxRKVerified) == 0)
+			vxAssert("a share with a wrong nonce is refused and not counted", err != nil && len(cfg.RotationProgress) == before && len(vxRKVerified) == 0)
 			continue
 		}
 		if seen {
 			vxReach("rekey: duplicate share")
-			vxAssert("a byte-identical share is refused and not counted", err != nil && len(c.rootRotationConfig.RotationProgress) == before && len(vxRKVerified) == 0)
+			vxAssert("a byte-identical share is refused and not counted", err != nil && len(cfg.RotationProgress) == before && len(vxRKVerified) == 0)
 			continue
 		}
 		_ = dup
 		accepted++
 		if accepted < threshold {
 			vxReach("rekey: below threshold")
-			vxAssert("below the threshold the share is recorded and nothing else happens", err == nil && len(c.rootRotationConfig.RotationProgress) == accepted && vxUCombines == 0 && len(vxRKVerified) == 0)
+			vxAssert("below the threshold the share is recorded and nothing else happens", err == nil && len(cfg.RotationProgress) == accepted && vxUCombines == 0 && len(vxRKVerified) == 0)
 			continue
 		}
 		vxReach("rekey: threshold reached")
@@ -121,7 +137,7 @@ func VxBarrierRekeyAccounting() {
 		} else {
 			vxAssert("the key is combined from exactly the accepted shares", vxUCombines == 1 && vxUCombinedOf == threshold)
 		}
-		vxAssert("the collected shares are discarded after the attempt", len(c.rootRotationConfig.RotationProgress) == 0)
+		vxAssert("the collected shares are discarded after the attempt", len(cfg.RotationProgress) == 0)
 		return
 	}
 }
